@@ -62,6 +62,7 @@ type sched struct {
 	nsched      int
 	held        bool // Hold(): new threads are registered but cannot run until Release
 	schedLog    []string
+	ungated     int // preemptions taken at operations that are not named gates
 }
 
 func newSched(in *interp) *sched {
@@ -136,6 +137,12 @@ func (s *sched) pick(from *thread, fromCanContinue bool) *thread {
 	i := s.in.r.choose(len(en), 's')
 	if i != 0 {
 		s.preemptions++
+		if fromCanContinue && from.what != "YieldAt" && from.what != "Yield" && from.what != "Stamp" {
+			// a preemption at a visible operation that is not a named gate (an atomic operation, a
+			// lock, a channel operation inside the code under test): a native run cannot be forced
+			// to switch threads there
+			s.ungated++
+		}
 	}
 	return en[i]
 }
